@@ -480,16 +480,24 @@ def ingredients(s, T, P, liquid_x, vapor_y):
 
 
 def residual(s, op, T, P, w):
-    """(|sum of implied fractions - 1|, max |implied/sum - returned|, implied) from the defining equation."""
+    """(|sum of implied fractions - 1|, max |implied/sum - returned|, implied) from the defining equation.  A returned
+    point at which the equation cannot even be evaluated (T = 1e7 K ...) counts as an infinite residual."""
     zn = s.z / s.z.sum()
-    if is_dew(op):
-        Psats, gamma, pcf, phi = ingredients(s, T, P, w, zn)
-        implied = zn * phi * P / (gamma * Psats * pcf)
-    else:
-        Psats, gamma, pcf, phi = ingredients(s, T, P, zn, w)
-        implied = zn * gamma * pcf * Psats / (phi * P)
-    tot = float(implied.sum())
-    return abs(tot - 1.0), float(np.abs(implied / tot - w).max()), implied
+    try:
+        with np.errstate(all='ignore'):
+            if is_dew(op):
+                Psats, gamma, pcf, phi = ingredients(s, T, P, w, zn)
+                implied = zn * phi * P / (gamma * Psats * pcf)
+            else:
+                Psats, gamma, pcf, phi = ingredients(s, T, P, zn, w)
+                implied = zn * gamma * pcf * Psats / (phi * P)
+            tot = float(implied.sum())
+            res = abs(tot - 1.0); dev = float(np.abs(implied / tot - w).max())
+    except (FloatingPointError, ZeroDivisionError, OverflowError, ValueError):
+        return float('inf'), float('inf'), np.full(s.n, np.nan)
+    if not (math.isfinite(res) and math.isfinite(dev)):
+        return float('inf'), float('inf'), implied
+    return res, dev, implied
 
 
 def res_tol(P):
